@@ -5,6 +5,8 @@ package rules
 import (
 	"fmt"
 	"go/token"
+	"os"
+	"runtime/debug"
 	"sort"
 
 	"golang.org/x/tools/go/ssa"
@@ -50,6 +52,9 @@ func Run(id string, p *core.Prog, tier string) (res *core.Result) {
 	}
 	defer func() {
 		if r := recover(); r != nil {
+			if os.Getenv("WSVERIF_DEBUG") != "" {
+				fmt.Fprintf(os.Stderr, "panic: %v\n%s\n", r, debug.Stack())
+			}
 			if ae, ok := r.(core.AnchorErr); ok {
 				res.Fail(id+".anchor-unresolved", "", ae.What, token.NoPos, "rule slot cannot be resolved in the current tree: "+ae.What)
 			} else {
@@ -150,4 +155,50 @@ func (c *Ctx) borrow(f PropFunc, rename map[string]string) {
 			c.R.Fail(to, "", "borrowed-rule-produced-no-obligation", token.NoPos, "the rule this clause is shared with produced no obligation")
 		}
 	}
+}
+
+// hostsOf: the functions in whose exploration the code of f is seen.  f itself
+// when it is a function the rules know; for a helper extracted by a later
+// refactoring (which explore() inlines into its callers) the callers,
+// transitively.
+func (c *Ctx) hostsOf(f *ssa.Function) []*ssa.Function {
+	seen := map[*ssa.Function]bool{}
+	var out []*ssa.Function
+	var visit func(g *ssa.Function, depth int)
+	visit = func(g *ssa.Function, depth int) {
+		if seen[g] || depth > 4 {
+			return
+		}
+		seen[g] = true
+		if !c.isNewHelper(g, 1) {
+			out = append(out, g)
+			return
+		}
+		n := 0
+		for _, h := range c.P.FuncList {
+			if h == g {
+				continue
+			}
+			if c.P.Mod(h).Callees[g] && callsDirectly(h, g) {
+				n++
+				visit(h, depth+1)
+			}
+		}
+		if n == 0 {
+			out = append(out, g) // no caller: judge it on its own
+		}
+	}
+	visit(f, 0)
+	return out
+}
+
+func callsDirectly(h, g *ssa.Function) bool {
+	for _, b := range h.Blocks {
+		for _, in := range b.Instrs {
+			if ci, ok := in.(ssa.CallInstruction); ok && ci.Common().StaticCallee() == g {
+				return true
+			}
+		}
+	}
+	return false
 }
